@@ -8,6 +8,7 @@
       load/store rules (layer 2); widths from objdump's `<SIZE> PTR` annotation
   D2b the displacement of a memory operand is emitted as one (sign-extended) byte only where
       it is known to lie in [-128, 127]
+  D7  the three-region split compares the alignment prologue count with ex->n on every path
   D6  fixed registers a rule parks (push / executor slot) come back from the same place into the same register
   D5  array pointers in OrcExecutor.arrays[] are loaded, stored and advanced at pointer width
   D3  who may store: array stores only in store rules, through the destination pointer
@@ -192,6 +193,33 @@ def run(ctx):
     # ---- D3 / D4 ---------------------------------------------------------------------
     d34(db, rep)
     d5(db, rep)
+    # D7: the three-region split always clamps the alignment prologue by n
+    # n1 (elements until the destination is aligned) is computed from the address alone; the generated code must compare
+    # it with ex->n and branch, whatever hints the program carries (n may be 0 or smaller than a vector even when the
+    # program says `.n mult K`): on every path of orc_x86_emit_split_3_regions that emits anything, the compare against
+    # OrcExecutor.n and a conditional branch are emitted.
+    from flow import paths_avoiding as _pa3
+    s3 = db.func("orc_x86_emit_split_3_regions", "orcprogram-x86")
+    sd3 = single_defs(s3)
+    emits3 = sorted([c for c in s3.calls() if c.name and c.name.startswith("orc_x86_emit_")], key=lambda c: (c.line, c.id))
+    if not emits3:
+        raise AnalysisBroken("orc_x86_emit_split_3_regions emits nothing")
+
+    def is_cmp_n(e):
+        return e.k == "CallExpr" and e.name and "cmp" in " ".join([e.name] + [str(m) for m in (e.mac or [])]).lower() and _slot_of_args(e.args(), sd3) == "n" or \
+            (e.k == "CallExpr" and e.name in ("orc_x86_emit_cpuinsn_reg_memoffset_s", "orc_x86_emit_cpuinsn_reg_memoffset", "orc_x86_emit_cpuinsn_imm_memoffset") and
+             _slot_of_args(e.args(), sd3) == "n" and "cmp" in unparse(e).lower())
+
+    def is_branch(e):
+        return e.k == "CallExpr" and e.name == "orc_x86_emit_cpuinsn_branch" and strip_casts(e.args()[1]).v is not None
+    w1 = _pa3(s3, emits3[0], is_cmp_n)
+    cmps = [c for c in s3.calls() if is_cmp_n(c)]
+    w2 = _pa3(s3, cmps[0], is_branch) if cmps else [0]
+    rep.check(w1 is None and w2 is None, "D7-REGION-CLAMP", where(s3), "n1<=n-clamp",
+              "the alignment prologue count is compared with ex->n and branched on, on every emitting path",
+              "orc_x86_emit_split_3_regions can finish without emitting the compare of n1 with ex->n and its branch: for n smaller than the "
+              "alignment distance (e.g. n = 0) the prologue then copies past the end of the arrays and the main-loop counter goes negative")
+
     # D6: registers parked around a scalar fallback come back unswapped (they hold the array pointers)
     from x86enc import check_save_restore
     xf = [f for f in db.all_functions() if f.relfile.startswith("orc/orcrules-") and ("sse" in f.relfile or "mmx" in f.relfile or "avx" in f.relfile)]
